@@ -14,15 +14,16 @@ EXTENDS Channel, Json, IOUtils
 CONSTANTS SigOf,        \* label -> "<function>.<kind>.<object>" for visible labels (generated from Channel.tla)
           Internal      \* labels without a visible operation
 Traces == JsonDeserialize(IOEnv.WV_TRACES)
+TraceCfgs == {Traces[i].cfg : i \in 1..Len(Traces)}      \* the scenarios of the recorded executions
 VARIABLES tid, l, verdict
 tvars == <<vars, tid, l, verdict>>
 
 StepOf(t) == IF t = "io" THEN io ELSE IF t = "cl" THEN client ELSE worker(t)
 
-TInit == Init /\ tid \in 1..Len(Traces) /\ l = 1 /\ verdict = "run"
+TInit == Init /\ tid \in 1..Len(Traces) /\ cfg = Traces[tid].cfg /\ l = 1 /\ verdict = "run"
 
 Post(e) ==   \* shared attributes after the step, as read from the real channel object
-  e.s.known => /\ (total' = 0) = (e.s.total = 0)     \* the model counts write_soon units, the code bytes
+  e.s.known => /\ total' = e.s.total
                /\ Len(requests') = e.s.nreq
                /\ willClose' = e.s.will_close
                /\ cwf' = e.s.cwf
